@@ -71,6 +71,12 @@ void harness(void)
     int a = m_act;
     LargeWord v = in_val[i], e = m_pc[a] + m_phase[a];
     ASSUME(in_op[i] < O_NOPS && in_seg[i] < NS);
+#ifdef NO_ALIGN
+    ASSUME(in_op[i] != O_ALIGN);
+#endif
+#ifdef ALIGN_ONLY
+    ASSUME(in_op[i] == O_ALIGN);
+#endif
     cur = i; CodeLen = 0; DontPrint = False;
     switch (in_op[i])
     {
@@ -86,11 +92,16 @@ void harness(void)
       {
         LargeWord n = v, target;
         ASSUME(n <= 0xffff);
+#ifdef ALIGN_ONLY
+        ASSUME(n <= ALIGN_NMAX && e >= ALIGN_BASE && e < ALIGN_BASE + 0x10000ull);   /* stated bound (64-bit division by a symbolic value) */
+#endif
         if (n == 0)
         {
           ArgCnt = 1; CodeALIGN(0);
           CHECK(diag_errs == 1 && CodeLen == 0, "ALIGN 0 is rejected with an error");
+#ifndef NO_ALIGN
           WITNESS("align 0 rejected");
+#endif
           return;
         }
 #ifdef ALIGN_BELOW_2G
@@ -104,7 +115,9 @@ void harness(void)
         CHECK(e + CodeLen == target, "ALIGN n advances to the next multiple of n (no move when already aligned)");
         WriteCode();
         m_pc[a] += target - e;
+#ifndef NO_ALIGN
         WITNESS("align");
+#endif
         break;
       }
       case O_PHASE:
@@ -116,7 +129,7 @@ void harness(void)
       case O_DEPHASE:
         ArgCnt = 0; CodeDEPHASE(0);
         if (m_pdepth[a]) { m_phase[a] = m_pstack[a][--m_pdepth[a]]; 
-#if K >= 2
+#if K >= 2 && !defined(ALIGN_ONLY)
           WITNESS("dephase restores");
 #endif
  }
@@ -134,7 +147,7 @@ void harness(void)
       case O_RESTORE:
         ArgCnt = 0; CodeRESTORE(0);
         if (m_sdepth) { m_act = m_save[--m_sdepth];
-#if K >= 2
+#if K >= 2 && !defined(ALIGN_ONLY)
           WITNESS("restore");
 #endif
         }
